@@ -184,7 +184,8 @@ RowEvents(pre, rec, a) ==
       one(t, u) ==
         LET r0 == RowOf(pre, t, u)  r1 == RowOf(rec, t, u)
             l0 == r0.st = "live"  l1 == r1.st = "live" IN
-        IF ~l0 /\ l1 THEN (IF a.a = "NewGrp" \/ (t \in P2Ps /\ u # actor) THEN <<[k |-> "row", t |-> t, u |-> u, p |-> HasP(r1)]>>
+        IF ~l0 /\ l1 THEN (IF t \in P2Ps /\ u # actor /\ a.a = "SetOther" THEN <<[k |-> "reinvite", t |-> t, u |-> u, p |-> HasP(r1)]>>
+                           ELSE IF a.a = "NewGrp" \/ (t \in P2Ps /\ u # actor) THEN <<[k |-> "row", t |-> t, u |-> u, p |-> HasP(r1)]>>
                            ELSE <<[k |-> "new", t |-> t, u |-> u, p |-> HasP(r1)]>>)
         ELSE IF l0 /\ ~l1 THEN <<[k |-> "gone", t |-> t, u |-> u, p |-> FALSE]>>
         ELSE IF l0 /\ l1 THEN
